@@ -114,6 +114,11 @@ class ClsInfo:
                     self.other.append(st.name)
 
 
+def _only_called_from_wrappers(im, name):
+    """the private function is referenced only inside intrinsics.py"""
+    return any(isinstance(n, ast.Name) and n.id == name and isinstance(n.ctx, ast.Load) for n in ast.walk(im.tree))
+
+
 def run(repo: Repo, chk: Check):
     chk.rule("R16.a", "every generated structure class stores _hash == signed CRC-32 (own implementation) of its _prefab_name", floor=700)
     chk.rule("R16.b", "every singular structure has exactly one plural with the same prefab/hash, a public singleton of it, batch "
@@ -369,6 +374,8 @@ def run(repo: Repo, chk: Check):
     for fn in im.tree.body:
         if not isinstance(fn, ast.FunctionDef):
             continue
+        if fn.name.startswith("_") and fn.name not in getattr(im, "raw_core", ()) and _only_called_from_wrappers(im, fn.name):
+            continue    # a private helper of the wrappers (not exported by 'from .intrinsics import *'): judged where it is expanded
         s = sites.get(fn.name)
         where = f"{im.path}:{fn.lineno} def {fn.name}"
         if s is None:
